@@ -506,6 +506,12 @@ func run(c *core.Ctx) {
 						// the prefix claim applies when the word is irregular for this direction
 						if f == it.dir && w == it.word {
 							checkPrefix(c, f, p, cw)
+							if p == "old " {
+								// prefixes that contain the very same word (same spelling), alone and inside longer words
+								for _, pp := range []string{cw + " for ", "x" + cw + " ", "un" + cw + "ly-", cw + cw + " ", cw + "-" + cw + "-"} {
+									checkPrefix(c, f, pp, cw)
+								}
+							}
 						} else {
 							checkTotalPure(c, f, p+cw)
 						}
@@ -705,7 +711,7 @@ func init() {
 	core.RegisterWorker("c20seq", seqWorker)
 	core.Register(&core.Prop{
 		ID: "C20", Level: "model_checking", Run: run, Replay: replay,
-		Rule: "sequential: every irregular word (both columns of both rules, read from the tree) x 3 cases x 10 prefixes x both functions with the prefix-preservation oracle, every uninflected pattern instance likewise (totality/purity), folding-sensitive variants (U+017F, U+212A) of every irregular word, all strings <=3 (5) over a 10-symbol alphabet, every lower-case ASCII word of <=4 (5) letters, every BMP code point (thorough: every Unicode scalar value) alone / glued in front of an irregular word / as last rune / as a prefix in front of a word boundary (prefix oracle; code points whose case mapping changes the UTF-8 length also repeated 6 times), invalid UTF-8 prefixes, all fresh-process call sequences of length 2 (3) over 8 (function,input) pairs; concurrent: ALL interleavings at the hooked sync.Map/OnceValue operations of 7 caller scenarios (2-3 goroutines x 1-2 calls, cold and pre-warmed caches; the 3x2 scenario with deviation bound 3), every return compared with the sequential reference, deadlock = violation; complement: free-running -race pass (cold starts: fresh processes whose first use of the package is made by 16 goroutines at once; then 200 rounds of 8 warm callers). Non-trivial = prefixed inputs, sequences, schedules; states = distinct schedules (by trace) and outcome classes",
+		Rule: "sequential: every irregular word (both columns of both rules, read from the tree) x 3 cases x 12 prefixes (plus 5 prefixes that contain the word itself) x both functions with the prefix-preservation oracle, every uninflected pattern instance likewise (totality/purity), folding-sensitive variants (U+017F, U+212A) of every irregular word, all strings <=3 (5) over a 10-symbol alphabet, every lower-case ASCII word of <=4 (5) letters, every BMP code point (thorough: every Unicode scalar value) alone / glued in front of an irregular word / as last rune / as a prefix in front of a word boundary (prefix oracle; code points whose case mapping changes the UTF-8 length also repeated 6 times), invalid UTF-8 prefixes, all fresh-process call sequences of length 2 (3) over 8 (function,input) pairs; concurrent: ALL interleavings at the hooked sync.Map/OnceValue operations of 7 caller scenarios (2-3 goroutines x 1-2 calls, cold and pre-warmed caches; the 3x2 scenario with deviation bound 3), every return compared with the sequential reference, deadlock = violation; complement: free-running -race pass (cold starts: fresh processes whose first use of the package is made by 16 goroutines at once; then 200 rounds of 8 warm callers). Non-trivial = prefixed inputs, sequences, schedules; states = distinct schedules (by trace) and outcome classes",
 		Assumptions: []string{
 			"scheduling points are the sync operations of pkg/inflector (rewritten to the zzsync shim by overlay); unsynchronised accesses are the race pass' job",
 			"prefixes end in an ASCII non-word character (the statement's 'word boundary'); a non-ASCII letter glued to the word is outside the alphabet",
